@@ -9,29 +9,33 @@ import (
 )
 
 func main() {
-	var groups []vlib.Group
-	for d := 1; d <= 4; d++ {
-		groups = append(groups, vlib.Group{Name: fmt.Sprintf("kd-shapes-d%d", d), Gen: genKD(d, false)})
+	// Cheap and diverse groups first, the d=4 enumerations (the bulk of the
+	// work) last, so that a deadline on a loaded machine cuts only their tail.
+	groups := []vlib.Group{
+		{Name: "index-empty", Gen: genEmpty},
+		{Name: "boxes", Gen: genBoxes},
+		{Name: "hilbert", Gen: genHilbert},
+		{Name: "combin-combinations", Gen: genCombinations},
+		{Name: "combin-permutations", Gen: genPermutations},
+		{Name: "combin-cartesian", Gen: genCartesian},
+		{Name: "combin-numbers", Gen: genNumbers},
+		{Name: "bh-plane", Gen: genBH(2)},
+		{Name: "bh-volume", Gen: genBH(3)},
+		{Name: "bh-struct", Gen: genBHStruct},
 	}
-	for d := 1; d <= 4; d++ {
-		groups = append(groups, vlib.Group{Name: fmt.Sprintf("kd-stock-d%d", d), Gen: genKD(d, true)})
-	}
-	for d := 1; d <= 4; d++ {
-		groups = append(groups, vlib.Group{Name: fmt.Sprintf("vp-d%d", d), Gen: genVP(d)})
+	for d := 1; d <= 3; d++ {
+		groups = append(groups,
+			vlib.Group{Name: fmt.Sprintf("kd-shapes-d%d", d), Gen: genKD(d, false)},
+			vlib.Group{Name: fmt.Sprintf("kd-stock-d%d", d), Gen: genKD(d, true)},
+			vlib.Group{Name: fmt.Sprintf("vp-d%d", d), Gen: genVP(d)},
+		)
 	}
 	groups = append(groups,
-		vlib.Group{Name: "index-empty", Gen: genEmpty},
 		vlib.Group{Name: "kd-struct", Gen: genKDStruct},
 		vlib.Group{Name: "vp-struct", Gen: genVPStruct},
-		vlib.Group{Name: "bh-plane", Gen: genBH(2)},
-		vlib.Group{Name: "bh-volume", Gen: genBH(3)},
-		vlib.Group{Name: "bh-struct", Gen: genBHStruct},
-		vlib.Group{Name: "boxes", Gen: genBoxes},
-		vlib.Group{Name: "hilbert", Gen: genHilbert},
-		vlib.Group{Name: "combin-combinations", Gen: genCombinations},
-		vlib.Group{Name: "combin-permutations", Gen: genPermutations},
-		vlib.Group{Name: "combin-cartesian", Gen: genCartesian},
-		vlib.Group{Name: "combin-numbers", Gen: genNumbers},
+		vlib.Group{Name: "kd-shapes-d4", Gen: genKD(4, false)},
+		vlib.Group{Name: "kd-stock-d4", Gen: genKD(4, true)},
+		vlib.Group{Name: "vp-d4", Gen: genVP(4)},
 	)
 	vlib.Main("C20", groups...)
 }
